@@ -272,6 +272,21 @@ impl<'tcx, 'a> Cx<'tcx, 'a> {
             o.set("in_trait", J::s(self.def_path(tr)));
         }
         if matches!(kind, DefKind::Fn | DefKind::AssocFn) {
+            // generic parameter names in substitution order (parent's first): lets the engine bind const generics
+            let mut gnames: Vec<J> = Vec::new();
+            let mut chain = Vec::new();
+            let mut cur = Some(did);
+            while let Some(d) = cur {
+                let g = tcx.generics_of(d);
+                chain.push(g);
+                cur = g.parent;
+            }
+            for g in chain.iter().rev() {
+                for p in g.own_params.iter() {
+                    gnames.push(J::s(p.name.to_string()));
+                }
+            }
+            o.set("generics", J::Arr(gnames));
             let sig = tcx.fn_sig(did).instantiate_identity().skip_norm_wip().skip_binder();
             o.set("ret_ty", self.ty_id(sig.output()));
             o.set("param_tys", J::Arr(sig.inputs().iter().map(|t| self.ty_id(*t)).collect()));
